@@ -291,12 +291,12 @@ theorem even_wrong_count (ps : List (Value N)) (h : ps.length ≠ 1) :
 /-- `int_to_hex(x)` is the upper-case hexadecimal numeral of `trunc(x) as i64` when that is non-negative -/
 theorem int_to_hex_nonneg (x : N) (h : 0 ≤ NumX.toI64 (NumOps.trunc x)) :
     intToHex [.num x] = .ok (.str (upperHexDigits (NumX.toI64 (NumOps.trunc x)).toNat)) := by
-  simp only [intToHex]; rw [if_neg (by omega)]
+  simp only [intToHex, hexUpperI64]; rw [if_neg (by omega)]
 
 /-- negative values print as 64-bit two's complement (Rust `{:X}` of an `i64`) -/
 theorem int_to_hex_neg (x : N) (h : NumX.toI64 (NumOps.trunc x) < 0) :
     intToHex [.num x] = .ok (.str (upperHexDigits (2^64 + NumX.toI64 (NumOps.trunc x)).toNat)) := by
-  simp only [intToHex]; rw [if_pos h]
+  simp only [intToHex, hexUpperI64]; rw [if_pos h]
 
 /-- what `int_to_hex_spec` needs from the number type: exactly representable integers are fixed by `trunc`
     and survive `as i64`.  True of IEEE doubles for |n| ≤ 2^53 (SlacProofs.F64Cast). -/
